@@ -28,6 +28,46 @@ from translate import TranslateError
 PATH = "dissect/hypervisor/descriptor/hyperv.py"
 
 
+def _eval_u16(expr, t, lineno, what):
+    """evaluate an integer expression over self.header.type = t (no names, no calls)"""
+    def ev(n):
+        if isinstance(n, ast.Constant) and isinstance(n.value, int) and not isinstance(n.value, bool):
+            return n.value
+        if _is_attr_chain(n, ["self", "header", "type"]):
+            return t
+        if isinstance(n, ast.BinOp):
+            a, b = ev(n.left), ev(n.right)
+            ops = {ast.BitAnd: lambda: a & b, ast.BitOr: lambda: a | b, ast.BitXor: lambda: a ^ b, ast.Add: lambda: a + b,
+                   ast.Sub: lambda: a - b, ast.Mult: lambda: a * b}
+            for k, fn in ops.items():
+                if isinstance(n.op, k):
+                    return fn()
+            if isinstance(n.op, ast.RShift) and 0 <= b < 64:
+                return a >> b
+            if isinstance(n.op, ast.LShift) and 0 <= b < 64:
+                return a << b
+            if isinstance(n.op, ast.FloorDiv) and b > 0:
+                return a // b
+            if isinstance(n.op, ast.Mod) and b > 0:
+                return a % b
+        if isinstance(n, ast.UnaryOp) and isinstance(n.op, (ast.Invert, ast.USub)):
+            return ~ev(n.operand) if isinstance(n.op, ast.Invert) else -ev(n.operand)
+        raise TranslateError(f"{PATH}:{lineno}: {what}: unsupported expression over self.header.type: {ast.unparse(expr)}")
+    return ev(expr)
+
+
+def _mask_shift(expr, lineno, what):
+    vals = [_eval_u16(expr, t, lineno, what) for t in range(1 << 16)]
+    for shift in range(16):
+        mask = 0
+        for bit in range(shift, 16):
+            if vals[1 << bit] != 0:
+                mask |= 1 << bit
+        if mask and all(vals[t] == (t & mask) >> shift for t in range(1 << 16)):
+            return mask, shift
+    raise TranslateError(f"{PATH}:{lineno}: {what} is not equal to `(self.header.type & M) >> S` on all uint16 values")
+
+
 def _find_class(tree, name):
     for n in tree.body:
         if isinstance(n, ast.ClassDef) and n.name == name:
@@ -115,16 +155,13 @@ def gen(repo):
 
     ent = _find_class(tree, "HyperVStorageKeyTableEntry")
 
-    # --- flags
+    # --- flags: any arithmetic over self.header.type (a uint16) that equals (type & M) >> S on all 65536 values;
+    #     `(t & 0xFF00) >> 8` and `(t >> 8) & 0xFF` translate to the same (M, S)
     f = _find_fn(ent, "flags")
     ret = [s for s in f.body if isinstance(s, ast.Return)]
-    if len(ret) != 1 or not (isinstance(ret[0].value, ast.BinOp) and isinstance(ret[0].value.op, ast.RShift)
-                             and isinstance(ret[0].value.left, ast.BinOp)
-                             and isinstance(ret[0].value.left.op, ast.BitAnd)
-                             and _is_attr_chain(ret[0].value.left.left, ["self", "header", "type"])):
-        raise TranslateError(f"{PATH}:{f.lineno}: flags is not `(self.header.type & M) >> S`")
-    out["flags_mask"] = _int(ret[0].value.left.right, "flags mask")
-    out["flags_shift"] = _int(ret[0].value.right, "flags shift")
+    if len(ret) != 1:
+        raise TranslateError(f"{PATH}:{f.lineno}: flags has {len(ret)} return statements")
+    out["flags_mask"], out["flags_shift"] = _mask_shift(ret[0].value, f.lineno, "flags")
 
     # --- type
     f = _find_fn(ent, "type")
